@@ -1,6 +1,7 @@
 package main
 
 import (
+	"fmt"
 	"sort"
 	"strings"
 
@@ -199,4 +200,31 @@ func charOracle(spec recipeSpec, tape []uint32, p *spg.Password, used int, maxTr
 		}
 	}
 	return strings.TrimRight(out, " ")
+}
+
+// attemptsOracle (C13): the retry budget, read off the tape. The implementation may consume at
+// most MaxTrials complete candidates — reading past the end of the MaxTrials-th means it went on
+// drawing after its budget — and it may report "couldn't generate … after N attempts" only when
+// it really consumed MaxTrials candidates.
+func attemptsOracle(spec recipeSpec, tape []uint32, err error, used int, maxTrials int) string {
+	rs := setsOf(spec)
+	if spec.L < 1 || len(rs.alphabet) == 0 || spec.L > 4096 || maxTrials < 1 || maxTrials > 100000 {
+		return ""
+	}
+	_, ends := replayCandidates(rs.alphabet, spec.L, tape, maxTrials)
+	if len(ends) == maxTrials && used > ends[maxTrials-1] {
+		return fmt.Sprintf(" ATTEMPTS-EXCEEDED(budget=%d,words-of-budget=%d,words-consumed=%d)", maxTrials, ends[maxTrials-1], used)
+	}
+	if err != nil && errKind(err) == "exhausted" {
+		done := 0
+		for _, e := range ends {
+			if e <= used {
+				done++
+			}
+		}
+		if done < maxTrials && len(ends) > done {
+			return fmt.Sprintf(" GAVE-UP-EARLY(attempts=%d,budget=%d)", done, maxTrials)
+		}
+	}
+	return ""
 }
